@@ -207,7 +207,7 @@ def shard(ctx):
             cells(ctx)
         except Violation as v:
             ctx.record_violation(v)
-    drive(ctx, avg_case(), lambda c: avg(ctx, c), 60000 if thorough else 400, tag="avg")
+    drive(ctx, avg_case(), lambda c: avg(ctx, c), 60000 if thorough else 1500, tag="avg")
 
 
 def replay(case, ctx):
